@@ -1,39 +1,83 @@
 #!/usr/bin/env python3
 """Regression of the machinery itself (not a registered check): every stored seeded change must be reported as a violation of
-its property (exit 1) unless its meta.json says `expect: 2`; every stored benign refactoring must pass (exit 0).
-Applies each patch to /repo with `git apply` and undoes it with `git checkout -- .`; refuses to run on a dirty /repo."""
-import json, os, subprocess, sys
+its property (exit 1) unless its meta.json says `expect: 2`; every stored benign refactoring must pass (exit 0) unless a
+`.expect` file says 2 (undecided; never 1).
+
+usage: regress.py [-j N] [filter ...]
+  -j 1 (default): applies each patch to /repo with `git apply` and undoes it with `git checkout -- .`; refuses a dirty /repo.
+  -j N: N scratch worktrees of /repo under /tmp (removed at the end), `check` is pointed at them with VERIF_REPO; /repo itself
+        is not touched."""
+import json, os, subprocess, sys, threading, queue
 V = os.path.dirname(os.path.dirname(os.path.abspath(__file__)))
 def sh(*a, **k): return subprocess.run(a, capture_output=True, text=True, **k)
+args = sys.argv[1:]
+jobs = 1
+if args[:1] == ["-j"]:
+    jobs = int(args[1]); args = args[2:]
+only = args
 if sh("git", "-C", "/repo", "status", "--porcelain").stdout.strip():
     sys.exit("regress: /repo is dirty")
-only = sys.argv[1:]
-rows, bad = [], 0
-def run(patch, pid):
-    r = sh("git", "-C", "/repo", "apply", patch)
+
+def run(repo, patch, pid):
+    r = sh("git", "-C", repo, "apply", patch)
     if r.returncode: return None, "patch does not apply"
+    env = dict(os.environ, VERIF_SCRATCH="1")
+    if repo != "/repo": env["VERIF_REPO"] = repo
     try:
-        c = sh(os.path.join(V, "check"), pid, cwd=V, env=dict(os.environ, VERIF_SCRATCH="1"))
+        c = sh(os.path.join(V, "check"), pid, cwd=V, env=env)
     finally:
-        sh("git", "-C", "/repo", "checkout", "--", ".")
+        sh("git", "-C", repo, "checkout", "--", ".")
+        sh("git", "-C", repo, "clean", "-fdq")
     viol = [l for l in c.stdout.splitlines() if l.startswith("VIOLATION property=%s " % pid)]
     return c.returncode, "%d VIOLATION lines" % len(viol) + ("; " + [l for l in c.stdout.splitlines() if "TOOL-LIMIT" in l][0][:150] if c.returncode == 2 else "")
+
+tasks = []
 for d in sorted(os.listdir(os.path.join(V, "seeded"))):
     if only and not any(o in d for o in only): continue
     meta = json.load(open(os.path.join(V, "seeded", d, "meta.json")))
-    exp = meta.get("expect", 1)
-    rc, note = run(os.path.join(V, "seeded", d, "patch.diff"), meta["property"])
-    ok = rc == exp
-    bad += not ok
-    print("%s seed   %-50s %s expect %s got %s  %s" % ("ok  " if ok else "FAIL", d, meta["property"], exp, rc, note), flush=True)
+    tasks.append(("seed", d, os.path.join(V, "seeded", d, "patch.diff"), meta["property"], meta.get("expect", 1)))
 for f in sorted(os.listdir(os.path.join(V, "benign"))):
     if not f.endswith(".diff") or (only and not any(o in f for o in only)): continue
-    pids = open(os.path.join(V, "benign", f[:-5] + ".props")).read().split() if os.path.exists(os.path.join(V, "benign", f[:-5] + ".props")) else ["C02"]
+    pp = os.path.join(V, "benign", f[:-5] + ".props")
+    pids = open(pp).read().split() if os.path.exists(pp) else ["C02"]
     ep = os.path.join(V, "benign", f[:-5] + ".expect")
     want = int(open(ep).read()) if os.path.exists(ep) else 0   # 2 = known to be undecided (exit 2); never 1
     for pid in pids:
-        rc, note = run(os.path.join(V, "benign", f), pid)
-        ok = rc == want
+        tasks.append(("benign", f, os.path.join(V, "benign", f), pid, want))
+
+bad = 0
+lock = threading.Lock()
+def report(kind, name, pid, exp, rc, note):
+    global bad
+    ok = rc == exp
+    with lock:
         bad += not ok
-        print("%s benign %-50s %s expect %s got %s  %s" % ("ok  " if ok else "FAIL", f, pid, want, rc, note), flush=True)
+        print("%s %-6s %-50s %s expect %s got %s  %s" % ("ok  " if ok else "FAIL", kind, name, pid, exp, rc, note), flush=True)
+
+if jobs <= 1:
+    for kind, name, patch, pid, exp in tasks:
+        rc, note = run("/repo", patch, pid)
+        report(kind, name, pid, exp, rc, note)
+else:
+    q = queue.Queue()
+    for t in tasks: q.put(t)
+    wts = []
+    for k in range(jobs):
+        wt = "/tmp/regress_wt_%d_%d" % (os.getpid(), k)
+        r = sh("git", "-C", "/repo", "worktree", "add", "-q", "--detach", wt, "HEAD")
+        if r.returncode: sys.exit("regress: cannot create worktree: " + r.stderr)
+        wts.append(wt)
+    def worker(wt):
+        while True:
+            try: kind, name, patch, pid, exp = q.get_nowait()
+            except queue.Empty: return
+            rc, note = run(wt, patch, pid)
+            report(kind, name, pid, exp, rc, note)
+    try:
+        ths = [threading.Thread(target=worker, args=(wt,)) for wt in wts]
+        for t in ths: t.start()
+        for t in ths: t.join()
+    finally:
+        for wt in wts:
+            sh("git", "-C", "/repo", "worktree", "remove", "--force", wt)
 sys.exit(1 if bad else 0)
